@@ -31,14 +31,17 @@ type RTap struct {
 	// FailWithData: the Read that crosses FailAt returns the bytes before it together with ErrInjected (n>0 and an error in one
 	// call, which io.Reader allows); later Reads fail with (0, ErrInjected) unless FailOnce.
 	FailWithData bool
-	failed       bool
-	Calls        int // maintained by the harness: index of the API call in progress
-	Log          []ReadRec
-	KeepLog      bool
-	NReads       int
-	MinGot       int
-	MaxGot       int
-	Seeks        []int64
+	// FailErr: the error the failing Reads return instead of ErrInjected (for instance io.ErrUnexpectedEOF, which is what gzip,
+	// tar and HTTP bodies shorter than announced return for cut input: an error other than io.EOF)
+	FailErr error
+	failed  bool
+	Calls   int // maintained by the harness: index of the API call in progress
+	Log     []ReadRec
+	KeepLog bool
+	NReads  int
+	MinGot  int
+	MaxGot  int
+	Seeks   []int64
 	// EOFWithData: the Read that delivers the last bytes returns them together with io.EOF (allowed by io.Reader; network bodies of
 	// known length and iotest.DataErrReader behave so). ZeroEvery k>0: every k-th Read returns (0, nil) ("nothing happened").
 	EOFWithData bool
@@ -72,13 +75,20 @@ func (t *RTap) Read(p []byte) (int, error) {
 	return n, err
 }
 
+func (t *RTap) failErr() error {
+	if t.FailErr != nil {
+		return t.FailErr
+	}
+	return ErrInjected
+}
+
 func (t *RTap) read(p []byte) (int, error) {
 	if len(p) == 0 {
 		return 0, nil
 	}
 	if t.FailAt >= 0 && t.Pos >= t.FailAt && !(t.FailOnce && t.failed) {
 		t.failed = true
-		return 0, ErrInjected
+		return 0, t.failErr()
 	}
 	if t.Pos >= len(t.Data) {
 		return 0, io.EOF
@@ -104,7 +114,7 @@ func (t *RTap) read(p []byte) (int, error) {
 	t.Pos += n
 	if withErr {
 		t.failed = true
-		return n, ErrInjected
+		return n, t.failErr()
 	}
 	if t.EOFWithData && t.Pos >= len(t.Data) {
 		return n, io.EOF
